@@ -115,6 +115,10 @@ def run(ctx):
     ctx.guard('J-PAIR', 'pairs', check_pairs, ctx, w)
     ctx.floor('J-PAIR', 6)
     ctx.guard('J-BISECT', 'bisect', check_bisect, ctx, w)
+    # get_CU_containing walks from the nearest cached unit: only a half-open extent test selects the same unit whatever the
+    # cache held (rule owned by C04/C13, shared)
+    from props import C04
+    ctx.guard('J-BISECT', 'unit containing an offset', C04.check_cu_containing, ctx, w, 'J-BISECT')
     ctx.floor('J-BISECT', 5)
     ctx.guard('J-KEY', 'memo keys', check_keys, ctx, w)
     ctx.floor('J-KEY', 4)
